@@ -16,7 +16,7 @@ CONSTANTS Threads, Inputs, MaxObjs, MaxCalls,
           BugAccessorMutates, \* an accessor pops an entry of the object's metric map
           BugJsonAlias,       \* as_json returns an internal dictionary by reference
           BugEntryPointWritesTables  \* an entry point (interactive builder / calculator main) edits a shared constant table
-Accessors == {"scores","severities","clean","clean_np","rh","tv","ev","json_uf","json_um","json_sf","json_sm","eq_self","hash","mutate_json"}
+Accessors == {"scores","severities","clean","clean_np","rh","tv","ev","json_uf","json_um","json_sf","json_sm","eq_self","hash","mutate_json","internals"}
 Pipeline == <<"parse","mandatory","fill","base","temporal","env">>
 \* abstract pure functions of an input i = <<kind, prefix, body>> ------------------------------
 Malformed(i) == i[1] = "bad"
